@@ -48,6 +48,19 @@ def gen(rng, tier):
         rhs = gen_dm.rand_formula(rng, with_group=0.2, response="").split("~", 1)[1].strip()
         cases.append({"formula": f"{resp} ~ {rhs}", "frame": fr, "na": "drop", "kind": "prop", "resp": resp,
                       "rhs": rhs, "tag": "narrow"})
+    # the empty string is a level like any other: e[''] is the 0/1 column of that level
+    for i in range(24 if tier != "thorough" else 200):
+        fr = gen_dm.make_frame(rng)
+        nrow = len(fr["columns"][0]["values"])
+        pool = rng.choice([["", "a", "b"], ["", "zz"], ["b", "", "a", "c"]])
+        vals = (pool * nrow)[:nrow]
+        rng.shuffle(vals)
+        kind_col = rng.choice(["str", "cat", "ordcat"])
+        fr["columns"].append(dm.col("e", kind_col, vals, categories=pool if kind_col != "str" else None))
+        resp = rng.choice(["e['']", 'e[""]', "e['a']", "e"]) if "a" in pool else rng.choice(["e['']", 'e[""]', "e['zz']"])
+        rhs = gen_dm.rand_formula(rng, with_group=0.2, response="").split("~", 1)[1].strip()
+        cases.append({"formula": f"{resp} ~ {rhs}", "frame": fr, "na": "drop", "kind": "cat" if resp == "e" else "level",
+                      "resp": resp, "rhs": rhs, "tag": "empty-level"})
     for rhs in ["x + f", "0 + x", "x + (1|g)"]:
         cases.append({"formula": rhs, "frame": gen_dm.make_frame(rng), "na": "drop", "kind": "none", "resp": None, "rhs": rhs})
     return cases
